@@ -243,14 +243,16 @@ def removesRecord (c : Checker) (d : TaskDef) (r : Rcd) (fs : FS) (resOf : Name 
 /-- the record the file loop of `get_status(get_log=True)` reads: already dropped when the checker changed -/
 def logRcd (c : Checker) (r : Rcd) : Rcd := if checkerChanged c r then Rcd.empty else r
 
-/-- `Dependency.get_status(task, tasks, get_log=True).status` (`doit info`): no early exit, every check runs.
-    A missing dependency sets `error`, but a later `changed_file_dep` reason sets `run` again; a state of the wrong
-    shape raises whatever else holds. -/
+/-- `Dependency.get_status(task, tasks, get_log=True).status` (`doit info`): no early exit, every check runs, but
+    (fix commit e6acbba) the status is the one given by the FIRST reason found -- the point where `get_log=False`
+    returns -- so it is the decision `run` takes.  The only difference left: the loop over `file_dep` is always
+    executed (on the record as it is after a removal on a checker change), so a state of the wrong shape raises even
+    where `get_log=False` would have returned earlier. -/
 def statusLog (c : Checker) (d : TaskDef) (r : Rcd) (fs : FS) (resOf : Name → Option Res) : Status :=
   if d.deps.any (depIs .crash c (logRcd c r) fs) then .crash
-  else if d.deps.any (depIs .modified c (logRcd c r) fs) then .run
+  else if earlyRun d r.getValues resOf fs || checkerChanged c r then .run
   else if d.deps.any (depMissing fs) then .error
-  else if earlyRun d r.getValues resOf fs || checkerChanged c r || depsChanged true (logRcd c r) d.deps then .run
+  else if d.deps.any (depIs .modified c r fs) || depsChanged true r d.deps then .run
   else .upToDate
 
 /-- what the value savers registered by the uptodate items put into `task.values` (`save_extra_values`);
